@@ -206,9 +206,13 @@ class Node:
 # Reader
 # --------------------------------------------------------------------------
 
-def _read_header(data, off, end):
+def _read_header(data, off, end, single_octet_ident=False):
     """Decode identifier and length octets at data[off:end].
-    -> (cls, constructed, tagnum, content_offset, content_length)"""
+    -> (cls, constructed, tagnum, content_offset, content_length)
+
+    single_octet_ident=True (internal, used by mutations() only) mimics
+    decoders without support for the high tag number form: the first octet
+    is always taken as the complete identifier."""
     if off >= end:
         raise DerError("truncated: no identifier octet")
     first = data[off]
@@ -216,7 +220,7 @@ def _read_header(data, off, end):
     cls = first >> 6
     constructed = bool(first & 0x20)
     tag = first & 0x1F
-    if tag == 0x1F:                                    # 8.1.2.4 high tag number
+    if tag == 0x1F and not single_octet_ident:         # 8.1.2.4 high tag number
         tag = 0
         n = 0
         while True:
@@ -257,10 +261,12 @@ def _read_header(data, off, end):
     return cls, constructed, tag, off, length
 
 
-def _parse_at(data, off, end, depth, checks, recurse_limit, max_depth):
+def _parse_at(data, off, end, depth, checks, recurse_limit, max_depth,
+              single_octet_ident=False):
     if depth > max_depth:
         raise DerDepthError("nesting deeper than %d" % max_depth)
-    cls, constructed, tag, c_off, c_len = _read_header(data, off, end)
+    cls, constructed, tag, c_off, c_len = _read_header(data, off, end,
+                                                       single_octet_ident)
     c_end = c_off + c_len
     content = bytes(data[c_off:c_end])
     if checks and cls == UNIVERSAL:
@@ -271,7 +277,8 @@ def _parse_at(data, off, end, depth, checks, recurse_limit, max_depth):
         pos = c_off
         while pos < c_end:
             child, pos = _parse_at(data, pos, c_end, depth + 1, checks,
-                                   recurse_limit, max_depth)
+                                   recurse_limit, max_depth,
+                                   single_octet_ident)
             children.append(child)
     node = Node(cls, constructed, tag, content, children,
                 bytes(data[off:c_end]), c_off - off)
@@ -471,11 +478,12 @@ def mutation_depth(label):
     return int(label.split("@", 1)[1].split(":", 1)[0])
 
 
-def _structure_rejects(data, depth):
+def _structure_rejects(data, depth, single_octet_ident=False):
     """True iff a decoder that checks only the TLV structure (no type
     specific content rule) and only down to `depth` rejects data."""
     try:
-        node, end = _parse_at(data, 0, len(data), 0, False, depth, MAX_DEPTH)
+        node, end = _parse_at(data, 0, len(data), 0, False, depth, MAX_DEPTH,
+                              single_octet_ident)
     except DerError:
         return True
     return end != len(data)
@@ -554,7 +562,9 @@ def mutations(data):
             # Certain only when the short TLV is the last one of its parent
             # (it then overruns the parent).  Otherwise it swallows the first
             # octet of its sibling and what follows might, by chance, parse:
-            # keep it only when it provably does not.
+            # keep it only when it provably does not - neither for a decoder
+            # that knows the high tag number form nor for one that takes
+            # every identifier as a single octet.
             cand.append(("truncated", ident + enc_len(len(c)) + c[:-1],
                          is_last_everywhere_needed(path)))
         for kind, repl, certain in cand:
@@ -562,6 +572,8 @@ def mutations(data):
             rejected = _structure_rejects(mutated, depth)
             if certain:
                 assert rejected, (kind, suffix)
+            else:
+                rejected = rejected and _structure_rejects(mutated, depth, True)
             if rejected:
                 out.append((kind + suffix, mutated))
         if node.children is not None:
